@@ -2,7 +2,7 @@
 (* TV form of C15.  One trace = one credential case executed on the real code:                                   *)
 (*   Case, then the steps of Order(class) - Create, DcLayout, DcFields, DcKeys, SpsdkParse, CheckDcSignature,    *)
 (*   CheckRotHash, Dac, Respond, DarLayout, DarFields, CheckResponseSignature [, Deliver] -,                     *)
-(*   then (Attempt | History | Tamper)*, Done.                                                                   *)
+(*   then (Attempt | History | Announce | Tamper)*, Done.                                                        *)
 (* Lane "slots" (Case.lane): the RoT key list of the case has slots sharing a key (Case.pat, Case.given); the     *)
 (*   trace is the fixed part only - up to CheckRotHash (container version 2, where the SRK table travels in the   *)
 (*   response: the whole fixed part).                                                                            *)
@@ -133,6 +133,25 @@ THistory == /\ l <= Len(T) /\ E.e = "History" /\ Open /\ cs.lane = "main"
                   /\ Len(E.obs[k].v) = Cardinality(HistDevices) * Cardinality(Chals)
                   /\ {E.obs[k].v[i] : i \in 1..Len(E.obs[k].v)} = StepVerdicts(BindsUuid(V), cs.wild, E.h[k], HistDevices)
             /\ Keep /\ l' = l + 1 /\ UNCHANGED <<tid, pos>>
+\* a challenge that ANNOUNCES something else than the credential says (DatTerms): another protocol version - each of the five, whatever
+\* the credential's is -, the other device, a RoT hash field that does not hold the fused value.  The challenge the twin sends has the
+\* layout of the ANNOUNCED version.  The host may refuse it (built = FALSE: nothing was built, nothing is said).  An answer it builds -
+\* through either of its entry points - is the answer of the CREDENTIAL's protocol to (a.d, ch1): it has the length of the response
+\* layout of the credential's class and version, embeds the credential and the beacon, was made from a challenge the host read correctly,
+\* and gets from every device, for every challenge a device may have outstanding, the verdict of the acceptance automaton for
+\* AnnResp(<binds of the credential>, a) - accepted by the announcing device under its challenge (credential scope permitting), by no device
+\* under another challenge, (ECC credential) by no other device.
+AnnVer == <<E.a.ver[1], E.a.ver[2]>>
+TAnnounce == /\ l <= Len(T) /\ E.e = "Announce" /\ Open /\ cs.lane = "main"
+             /\ Len(E.a.ver) = 2 /\ AnnVer \in Versions /\ E.a.d \in HistDevices /\ E.a.rkth \in AnnRkth /\ E.a.via \in AnnVias
+             /\ (C = "ele2" => E.a.via = "config")                               \* signed-message variant: no constructor taking a credential object
+             /\ E.hl = DacHashLen(IF C = "ele2" THEN "ele1" ELSE C, AnnVer, cs.sha256) /\ E.len = DacLen(E.hl)
+             /\ (E.built => /\ E.parsed /\ E.chalOk /\ E.uuidOk /\ E.verOk
+                            /\ E.darLen = DarLen(C, V, N)
+                            /\ E.obs.dcEq /\ E.obs.bIs = B0
+                            /\ Len(E.obs.v) = Cardinality(HistDevices) * Cardinality(Chals)
+                            /\ {E.obs.v[i] : i \in 1..Len(E.obs.v)} = AnnVerdicts(BindsUuid(V), cs.wild, E.a, HistDevices))
+             /\ Keep /\ l' = l + 1 /\ UNCHANGED <<tid, pos>>
 \* single-bit corruption of the honest response: never accepted, and stopped by the check that covers the field
 DcNames == {DcTable(C, V, N)[i].n : i \in 1..Len(DcTable(C, V, N))}
 DarNames == {DarTable(C, V, N)[i].n : i \in 1..Len(DarTable(C, V, N))} \ {"dc", "pad"}
@@ -193,7 +212,7 @@ TCredParse == /\ CredLane /\ E.e = "CredParse" /\ ob.alive /\ ob.wst # "none"
 TDone == /\ l <= Len(T) /\ E.e = "Done" /\ (Open \/ pos = Refused) /\ Keep /\ l' = l + 1 /\ pos' = Finished /\ UNCHANGED tid
 TNext == \/ TCase \/ TSkip \/ TCreateRefused \/ TCreate \/ TDcLayout \/ TDcFields \/ TDcKeys \/ TSpsdkParse \/ TCheckDcSignature
          \/ TCheckRotHash \/ TDac \/ TRespondRefused \/ TRespond \/ TDarLayout \/ TDarFields \/ TCheckResponseSignature \/ TDeliver
-         \/ TAttempt \/ THistory \/ TTamper \/ TDone
+         \/ TAttempt \/ THistory \/ TAnnounce \/ TTamper \/ TDone
          \/ TCredNewRefused \/ TCredNew \/ TCredSign \/ TCredSet \/ TCredExport \/ TCredParse
 Constr == IF TLCGet(tid) < l THEN TLCSet(tid, l) ELSE TRUE
 Post == /\ PrintT(<<"DONE", Len(Traces)>>)
